@@ -5,6 +5,34 @@ usage: mk_refactor_tasks.py <wave-tag> [ids...]  -> /tmp/seedtask/<id><tag>.md""
 import json, sys, os
 tag = sys.argv[1]
 ids = set(sys.argv[2:])
+BRIEF_X = """They are used to check that an analysis tool does not raise false alarms on harmless commits, so they
+should look like the commits the maintainers of this project will really make over the next two years
+**that are not about this property**.  This wave differs from a pure refactoring: behaviour the
+property does not speak about MAY change, as long as the property as stated still holds for every input:
+* robustness work next to the mechanism: clearer error messages, an earlier and more specific exception
+  for arguments that were already rejected (same exception class or a subclass), argument validation
+  for values that could never have worked, warnings (`warnings.warn`) for deprecated spellings,
+  `__slots__`, `__repr__`/`__str__`, debug logging, timing/statistics counters;
+* compatibility work: NumPy 2 spellings (`np.frombuffer`/`np.asarray(..., copy=...)`/`np.dtype(...)` objects
+  instead of strings, `astype(..., copy=False)` where the value is fresh anyway), `pathlib.Path`
+  accepted where a `str` path was, type annotations and `typing` casts, `from __future__ import annotations`,
+  f-strings, `super()` without arguments, `enum.Enum`/`IntEnum`/`IntFlag` for former integer constants
+  (with the same numeric values), dataclasses / NamedTuples for former tuples;
+* small features that leave every existing call as it is: a new optional parameter whose default is the old
+  behaviour, a new method/property that combines existing ones, an iterator variant of a list-returning
+  private helper (with the callers adapted), a context-manager wrapper, a `__len__`/`__contains__`/`__iter__`;
+* performance work that keeps results identical: avoiding a temporary copy, reading into a preallocated
+  buffer, caching an *immutable* derived value keyed by *everything* it depends on, `functools.lru_cache`
+  on a pure function of hashable constants, early exit from a search, batching small reads that are
+  contiguous anyway, `struct.Struct` objects, local aliases;
+* code-health work: splitting a long function, merging duplicated branches, moving a class or helper to
+  a new private module (re-exported where it was), replacing a hand-written loop by a library call with the
+  same semantics, turning magic numbers into named constants, narrowing a bare `except`, removing dead code.
+Each change should touch at least one of the mechanism sites named in the property's anchors, be
+non-trivial, and vary in form between your four.  It must not make the property false for ANY input
+(including malformed files, big-endian data, empty channels, exceptions raised) - argue that in your note.
+"""
+
 TEMPLATE = """# Task: behaviour-preserving refactorings of the npTDMS library
 
 You are given one *semantic property* of the Python library npTDMS (reader and writer for LabVIEW
@@ -61,6 +89,10 @@ for line in open('/verif/properties.jsonl'):
     if ids and pid not in ids:
         continue
     name = pid + tag
+    if tag == 'x':
+        a = TEMPLATE.index('They are used to check'); b = TEMPLATE.index('## Where to work')
+        TEMPLATE = TEMPLATE[:a] + BRIEF_X + '\n' + TEMPLATE[b:]
+        TEMPLATE = TEMPLATE.replace('**behaviour-preserving refactorings**', '**property-preserving commits**')
     open('/tmp/seedtask/%s.md' % name, 'w').write(TEMPLATE.format(
         wt='/tmp/wt/' + name, out='/tmp/seedout/' + name, pid=pid, prop=json.dumps(p, indent=1, ensure_ascii=False)))
     print(name)
